@@ -28,5 +28,7 @@ PROPS["C20"] = dict(
         run("span", "c20_rc", "span_ops", "rc", dict(procs=2, cases=15000), dict(procs=2, cases=200000)),
         run("uptr", "c20_rc", "uptr_ops", "rc", dict(procs=2, cases=15000), dict(procs=4, cases=200000)),
         run("sptr", "c20_rc", "sptr_ops", "rc", dict(procs=3, cases=15000), dict(procs=6, cases=200000)),
+        run("fref", "c20_rc", "fref_ops", "rc", dict(procs=1, cases=10000), dict(procs=2, cases=100000)),
+        run("variant", "c20_rc", "var_ops", "rc", dict(procs=3, cases=15000), dict(procs=6, cases=200000)),
     ],
 )
